@@ -113,6 +113,11 @@ def case_recipe(G, espec, rng, nmods, annotate=False, refs=False, rotate=True, s
                 uspec["refs"] = ["ref-u%d-0" % j, "ref-u%d-1" % j]
                 uspec["feats"] = [cited_inside(uspec, len(G.site) + G.off, G.ovh + 4, rng, 2)]
             mods.append(uspec)
+    if len(mods) >= 2 and rng.random() < 0.12:
+        # plasmid ids are not unique in real life: anonymous records, products that kept the default id
+        dup = rng.choice(["<unknown id>", "assembly", "pX"])
+        for m in (mods if rng.random() < 0.5 else rng.sample(mods, 2)):
+            m["id"] = dup
     if shuffle:
         rng.shuffle(mods)
     return {"fn": "assemble", "enz": espec, "vector": specs[0], "modules": mods, "id": "prod", "name": "prod",
